@@ -7,9 +7,9 @@ from vlib import NoVerdict, log
 
 HARNESS = {"csr/zz_verif_reqparam_test.go": os.path.join(vlib.HARNESS, "reqparam", "zz_verif_reqparam_test.go")}
 CFG = {
-    "C14": dict(quick="MCReqParam_c14", thorough="MCReqParam_c14", spec="Spec14", strict="Strict14",
+    "C14": dict(quick=["MCReqParam_c14"], thorough=["MCReqParam_c14"], spec="Spec14", strict="Strict14",
                 random=dict(quick=4000, thorough=120000)),
-    "C15": dict(quick="MCReqParam_c15q", thorough="MCReqParam_c15t", spec="Spec15", strict="Strict15",
+    "C15": dict(quick=["MCReqParam_c15q"], thorough=["MCReqParam_c15t", "MCReqParam_c15t4"], spec="Spec15", strict="Strict15",
                 random=dict(quick=6000, thorough=120000)),
 }
 TRACE_CONSTANTS = 'CONSTANTS\n  LKeys = {"req"}\n  MaxFields = 0\n  IfVers = {7}\n'
@@ -20,20 +20,19 @@ def build(prop):
     return vlib.build_harness("reqparam", "csr", HARNESS, outdir=os.path.join(vlib.OUT, prop, "bin"))
 
 
-def model_check(prop, tier, wd):
+def model_check(prop, cfgname, wd):
     """TLC on the bounded model: the property formula, the sanity theorems, and the export of every case."""
-    conf = CFG[prop]
-    txt = open(os.path.join(vlib.SPEC, conf[tier] + ".cfg")).read()
+    txt = open(os.path.join(vlib.SPEC, cfgname + ".cfg")).read()
     txt += "\nACTION_CONSTRAINT EmitCase\n"
     with open(os.path.join(wd, "run.cfg"), "w") as f:
         f.write(txt)
-    r = vlib.tlc(wd, "MCReqParam.tla", "run.cfg", workers=4, timeout=1500, coverage=(tier == "thorough"))
+    r = vlib.tlc(wd, "MCReqParam.tla", "run.cfg", workers=4, timeout=1500)
     if r.violated:
-        raise NoVerdict("the MODEL violates %s under %s (formalisation slip, not a verdict on the code):\n%s" % (r.violated, conf[tier], r.stdout[-3000:]))
+        raise NoVerdict("the MODEL violates %s under %s (formalisation slip, not a verdict on the code):\n%s" % (r.violated, cfgname, r.stdout[-3000:]))
     if r.error or "Model checking completed. No error" not in r.stdout:
-        raise NoVerdict("TLC failed on %s: %s" % (conf[tier], r.error or r.stdout[-2000:]))
+        raise NoVerdict("TLC failed on %s: %s" % (cfgname, r.error or r.stdout[-2000:]))
     cases = vlib.tlc_json_lines(r.stdout, "CASE")
-    log("[tlc] %s: %d generated / %d distinct, %d cases exported, %.1fs" % (conf[tier], r.generated, r.distinct, len(cases), r.wall))
+    log("[tlc] %s: %d generated / %d distinct, %d cases exported, %.1fs" % (cfgname, r.generated, r.distinct, len(cases), r.wall))
     if not cases or 2 * len(cases) != r.distinct:
         raise NoVerdict("case export incomplete: %d cases for %d states" % (len(cases), r.distinct))
     return r, cases
@@ -139,11 +138,32 @@ def run(prop, tier):
     conf = CFG[prop]
     verdict, drift = vlib.Verdict(prop), []
     binp = build(prop)
-    wd = vlib.workdir(prop, "mc_" + conf[tier])
-    r, cases = model_check(prop, tier, wd)
-    states, transitions = r.distinct, r.generated
-    zero = list(r.coverage_zero)
-    del r
+    cases, seen, states, transitions = [], set(), 0, 0
+    for cfgname in conf[tier]:
+        wd = vlib.workdir(prop, "mc_" + cfgname)
+        r, cs = model_check(prop, cfgname, wd)
+        states, transitions = states + r.distinct, transitions + r.generated
+        del r
+        for c in cs:
+            k = json.dumps(c, sort_keys=True)
+            if k not in seen:
+                seen.add(k)
+                cases.append(c)
+    # every action of the enumerating state machine must have walked at least one case
+    fired = set()
+    for c in cases:
+        k, cc = c["k"], c["c"]
+        if k == "c14":
+            cmd = cc["cmd"]
+            fired.add("DoJsonObject" if cmd in ("json_ok", "json_nover", "json_nouser", "json_nohost") else "DoJsonNull" if cmd == "json_null"
+                      else "DoLegacy" if cmd.startswith("leg_") else "DoEmpty" if cmd == "empty" else "DoGarbage" if cmd == "garbage" else "DoOtherJson")
+        else:
+            fired.add({"leg": "DoLegacyText", "dec": "DoDecode"}.get(k) or ("DoRoundTripJson" if cc["ifVer"] >= 7 else "DoRoundTripLegacy"))
+    want = {"C14": {"DoJsonObject", "DoJsonNull", "DoOtherJson", "DoLegacy", "DoEmpty", "DoGarbage"},
+            "C15": {"DoRoundTripJson", "DoRoundTripLegacy", "DoLegacyText", "DoDecode"}}[prop]
+    zero = sorted(want - fired)
+    if zero:
+        raise NoVerdict("vacuous: actions %s walked no case" % zero)
     plan = {"prop": prop, "cases": cases, "random": conf["random"][tier], "replays": []}
     recs, summ = execute(prop, binp, wd, plan, tier)
     steps = [x for x in recs if x.get("ev") == "step"]
@@ -152,7 +172,7 @@ def run(prop, tier):
         raise NoVerdict("harness recorded %d events for %d cases" % (len(steps), len(cases)))
     if prop == "C14" and summ["ok14"] < 32:
         raise NoVerdict("vacuous: only %d successful NewReqParam calls" % summ["ok14"])
-    nval = judge(prop, verdict, recs, conf[tier], drift)
+    nval = judge(prop, verdict, recs, conf[tier][0], drift)
     dk = {}
     for d in drift:
         dk.setdefault(vkey(d["e"]), []).append(d)
@@ -172,7 +192,7 @@ def run(prop, tier):
                    "distinct_nontrivial = distinct (input class, JSON reading, outcome) combinations observed; every recorded call (table cases and seeded free inputs) is judged by TLC with %s_Step" % prop,
            "table_cases_replayed": len(cases), "table_case_events": ncase, "free_input_events": nval - ncase,
            "successful_calls": summ.get("ok14"), "panics_observed": summ["pan"], "spec_drift": len(drift),
-           "classes_observed": summ["classes"], "zero_coverage_actions": zero, "model_cfg": conf[tier]}
+           "classes_observed": summ["classes"], "zero_coverage_actions": zero, "model_cfgs": conf[tier]}
     rc = verdict.finish()
     vlib.write_evidence(prop, tier, "model_checking", cov,
                         ["the classification of input text (JSON kind, decodability as an attribute object via a mirror struct, lexical atoms, version class) is done by the harness with the Go standard library",
